@@ -585,6 +585,20 @@ func encodeText(oid uint32, v any) []byte {
 			return []byte(x.UTC().Format("2006-01-02 15:04:05.999999") + "+00")
 		}
 	}
+	switch x := v.(type) {
+	case []int32:
+		parts := make([]string, len(x))
+		for i, e := range x {
+			parts[i] = fmt.Sprint(e)
+		}
+		return []byte("{" + strings.Join(parts, ",") + "}")
+	case []string:
+		parts := make([]string, len(x))
+		for i, e := range x {
+			parts[i] = `"` + strings.NewReplacer(`\`, `\\`, `"`, `\"`).Replace(e) + `"`
+		}
+		return []byte("{" + strings.Join(parts, ",") + "}")
+	}
 	panic(fmt.Sprintf("encodeText: unsupported %T", v))
 }
 
